@@ -388,6 +388,11 @@ def cursor_rule(ctx, prog, an, rule, decoder_path, R=None):
     if not R.ok:
         ctx.ob(rule, decoder_path, "record-cursor", False, R.why)
         return
+    # what the records parser returns as the rest (it becomes `padding`) is, link by link, a parser's remainder:
+    # records cut out by hand (`chunks_exact(size)`, `&input[n * size..]`) drop whatever a record leaves unread
+    from .loopexit import cursor_integrity
+    if R.F in prog.bodies:
+        cursor_integrity(ctx, prog, an, rule, R.F, "records:" + decoder_path.rsplit("::", 2)[-2])
     swallowed = []
     for (b, blk, kind, c) in R.chain:
         t = b.term(blk)
